@@ -272,6 +272,7 @@ type c24Cfg struct {
 	damageAlgs   []int // algorithms on which the corruption clause runs
 	lz4NoTrunc   bool  // no truncation / tail loss / magic damage on LZ4
 	zstdNoEmpty  bool  // never truncate a zstd frame to zero bytes
+	zstdKeepFlag bool  // the Content_Checksum flag of the zstd frame header descriptor keeps its value
 	forceDamage  bool
 	forceAlg     int
 	forceKinds   []string
@@ -307,12 +308,22 @@ func c24MainCfg(report bool) c24Cfg {
 		cfg.zstdMaxLen = 1 << 18
 		excluded("Zstd payloads above 256 KiB (≥ 3 blocks), and Zstd calls that do not return are skipped, not failed (open finding zstd-stream-decoder-deadlock, timing dependent)")
 	}
+	if pbt.Open("C24", "zstd-header-flag-unprotected") {
+		cfg.zstdKeepFlag = true
+		excluded("Zstd: damage that changes the Content_Checksum flag (bit 2 of the frame header descriptor, byte 4) (open finding zstd-header-flag-unprotected)")
+	}
 	if pbt.Open("C24", "zstd-empty-input") {
 		cfg.zstdNoEmpty = true
 		excluded("Zstd: truncation to zero bytes (open finding zstd-empty-input)")
 	}
 	return cfg
 }
+
+// zstdKeepChecksumFlag ends the damage program of a Zstd case while the finding
+// zstd-header-flag-unprotected is open: bit 2 (Content_Checksum_flag) of the
+// frame header descriptor (byte 4) is put back to its original value. Every
+// other damage — including the rest of that byte — stays.
+var zstdKeepChecksumFlag = Corruption{Kind: "keepbit", Off: 4, Bits: []int{2}}
 
 func genPayload(t *rapid.T, maxLen int) PayloadSpec {
 	// NB rapid's integer generators are biased towards small values: the
@@ -464,6 +475,9 @@ func genC24(cfg c24Cfg) func(t *rapid.T) C24Scenario {
 				s.Damage = append(s.Damage, c)
 			}
 			s.Damage = append(s.Damage, tail...)
+			if s.Alg == 4 && cfg.zstdKeepFlag {
+				s.Damage = append(s.Damage, zstdKeepChecksumFlag)
+			}
 		}
 		return s
 	}
@@ -543,6 +557,18 @@ func runC24x(s C24Scenario, allocOnly bool) pbt.Outcome {
 
 	d := c
 	for _, step := range s.Damage {
+		if step.Kind == "keepbit" {
+			// restore the listed bits of byte Off from the ORIGINAL compressed form
+			// (exclusion of an open finding, part of the damage program)
+			if step.Off < len(d) && step.Off < len(c) {
+				d = append([]byte{}, d...)
+				for _, bit := range step.Bits {
+					m := byte(1) << (bit % 8)
+					d[step.Off] = d[step.Off]&^m | c[step.Off]&m
+				}
+			}
+			continue
+		}
 		d = step.apply(d)
 		out.Classes = append(out.Classes, "damage:"+step.Kind)
 	}
@@ -607,7 +633,7 @@ func runC24x(s C24Scenario, allocOnly bool) pbt.Outcome {
 
 // c24HangTimeout bounds one Decompress call of a damaged input (the largest
 // inputs decompress in milliseconds; the bound is generous for loaded machines).
-const c24HangTimeout = 30 * time.Second
+const c24HangTimeout = 120 * time.Second
 
 // decompressWatched runs Decompress in its own goroutine so that a call that
 // never returns is reported instead of stalling the whole check. (The blocked
